@@ -55,11 +55,27 @@ def cases(ctx):
             out, _ = ri.run_program(shadow[app], prog, step_bound=600)
             if out != "done":
                 break
-        yield {"kind": "history", "units": units, "subs": subs}
+        # (every fifth history runs under the hardware setting, where register and array values are also checked for width:
+        # a 32-bit overflow is then a loud refusal, everything else is as on the simulator)
+        yield {"kind": "history", "units": units, "subs": subs, "hw": rng.random() < 0.2}
 
 
 def run_case(ctx, case):
+    from netqasm.runtime.settings import set_is_using_hardware
+    set_is_using_hardware(bool(case.get("hw")))
+    try:
+        if case.get("hw"):
+            ctx.count("histories_on_the_hardware_setting")
+        return _run_case(ctx, case)
+    finally:
+        set_is_using_hardware(False)
+
+
+def _run_case(ctx, case):
     side = l2.ExecSide(name="node", step_limit=700)
+    from netqasm.runtime.settings import get_is_using_hardware, set_is_using_hardware
+    set_is_using_hardware(bool(case.get("hw")))      # (building the executor side resets the global switch)
+    assert get_is_using_hardware() == bool(case.get("hw"))
     refs = []
     for a, u in enumerate(case["units"]):
         side.init_app(a, u)
@@ -81,6 +97,10 @@ def run_case(ctx, case):
         rt = r_info["trace"]
         ctx.count("branches_taken", sum(1 for x, y in zip(rt, rt[1:]) if y != x + 1))
         where = f"subroutine {k} (app {app})"
+        if e_out != r_out and case.get("hw") and "OverflowError" in str(e_info.get("exc", "")):
+            ctx.count("discarded_hardware_width_refusals")
+            complete = False
+            break
         if e_out != r_out:
             ctx.fail(case, f"{where}: executor {e_out} {e_info.get('exc', '')} at {e_info.get('line')} but reference "
                            f"{r_out} {r_info.get('what', '')} at {r_info.get('line')}")
